@@ -599,6 +599,11 @@ case('C11', "C11-seed5", "mutant", 'seeded (round 3): host entry for a mirror bu
 case('C16', "C16-seed3", "mutant", 'seeded: platform digest cache keyed by list digest and plat.String(), which drops os.version',
      patch="seeded/C16-3/patch.diff", expect=[('C16.R6', 'getPlatformDigest', 'key rendered by Platform.String')])
 
+case('C09', "C09-seed5", "mutant", 'seeded (round 3): regctl image export --platform pins the reference with SetDigest (drops the tag)',
+     patch="seeded/C09-5/patch.diff", expect=[('C09.R11', 'runImageExport', 'reference exported')])
+case('C15', "C15-seed6", "mutant", 'seeded (round 3): regctl image mod --annotation-base clears the digest with SetDigest("")',
+     patch="seeded/C15-6/patch.diff", expect=[('C15.R8', 'newImageModCmd', 'SetDigest("")')])
+
 # thirty unexported functions the rules know by name, renamed throughout (resolved by role, internal/rules/roles.go)
 for _p in ["C%02d" % i for i in range(1, 21)]:
     case(_p, _p + "-b-rename", "benign", "thirty unexported anchor functions renamed throughout the module", patch="selftest/variants/all-b-rename.diff")
